@@ -189,6 +189,54 @@ def color_graph_section(ctx):
             ctx.corr_mismatch(case, "Gallina color_graph differs from markFeatureWriter.colorGraph")
 
 
+def contextual_orphan_section(ctx):
+    """a contextual anchor (*key, with a GPOS_Context entry in public.objectLibs) on a base / ligature / mark glyph whose key
+    no mark glyph of the font attaches to: the font must compile (fixed finding F25: KeyError) and the ordinary anchors must
+    attach exactly as without the contextual anchor"""
+    import ufo2ft
+    from fontTools.ttLib import TTFont
+    for i in range(ctx.budget(6, 18)):
+        lib = ["ufoLib2", "defcon"][i % 2]
+        where = ["base", "ligature", "mark"][i % 3]
+        orphan = i % 2 == 0                       # the contextual key has no mark (orphan) / has one
+        key = "ogonek" if orphan else "top"
+        def glyphs(with_ctx):
+            gl = [{"name": "a", "unicodes": [0x61], "width": 500, "contours": [], "components": [], "cat": "base",
+                   "anchors": [("top", Fr(250), Fr(500)), ("bottom", Fr(250), Fr(0))]},
+                  {"name": "f_i", "unicodes": [], "width": 600, "contours": [], "components": [], "cat": "ligature",
+                   "anchors": [("top_1", Fr(150), Fr(700)), ("top_2", Fr(450), Fr(700))]},
+                  {"name": "acutecomb", "unicodes": [0x301], "width": 0, "contours": [], "components": [], "cat": "mark",
+                   "anchors": [("_top", Fr(0), Fr(480)), ("top", Fr(0), Fr(650))]},
+                  {"name": "dotbelowcomb", "unicodes": [0x323], "width": 0, "contours": [], "components": [], "cat": "mark",
+                   "anchors": [("_bottom", Fr(0), Fr(-20))]}]
+            if with_ctx:
+                g = {"base": gl[0], "ligature": gl[1], "mark": gl[2]}[where]
+                nm = "*" + key + ("_1" if where == "ligature" else "")
+                g["anchors"] = g["anchors"] + [(nm, Fr(260), Fr(540), "CTX-1")]
+                g["lib"] = {"public.objectLibs": {"CTX-1": {"GPOS_Context": "a *" if where != "base" else "f_i *"}}}
+            return gl
+        def build(with_ctx):
+            gl = glyphs(with_ctx)
+            desc = {"glyphs": gl, "features": "languagesystem DFLT dflt;\nlanguagesystem latn dflt;\n",
+                    "lib": {"public.openTypeCategories": {g["name"]: g["cat"] for g in gl}}}
+            tt = ufo2ft.compileTTF(build_font(desc, lib), useProductionNames=False)
+            b = io.BytesIO(); tt.save(b); return Layout(TTFont(io.BytesIO(b.getvalue())))
+        case = {"contextual_anchor_on": where, "key": key, "key_has_a_mark": not orphan, "lib": lib}
+        ctx.count(); ctx.klass("contextual anchor on %s, %s" % (where, "no mark for its key" if orphan else "mark exists")); ctx.nontriv(("ctxo", i, ctx.scale))
+        try:
+            plain, withc = build(False), build(True)
+        except Exception as e:
+            ctx.spec_failure(case, "compile raised %s: %s\n%s" % (type(e).__name__, e, traceback.format_exc()[-1000:]))
+            continue
+        for base, mark, comp in (("a", "acutecomb", None), ("a", "dotbelowcomb", None), ("f_i", "acutecomb", 0), ("f_i", "acutecomb", 1),
+                                 ("acutecomb", "acutecomb", None)):
+            la = plain.lookups_for("DFLT", {"mark", "mkmk"}); lb = withc.lookups_for("DFLT", {"mark", "mkmk"})
+            # only the non-contextual lookups: a mark attaches without context exactly as before
+            a, b = plain.mark_attach(la, base, mark, comp), withc.mark_attach(lb, base, mark, comp)
+            if a is None or (b is not None and a[:2] != b[:2] and orphan):
+                ctx.spec_failure(dict(case, base=base, mark=mark, component=comp), "attachment %r without the contextual anchor, %r with it" % (a, b))
+
+
 def mark_class_section(ctx):
     """_makeMarkClassDefinitions against Mark/MarkClasses.v: feature files that already define mark classes -- under the
     name the writer generates (@MC_top), under its first fallback (@MC_top_1), under other names -- holding some of the
@@ -281,6 +329,7 @@ def mark_class_section(ctx):
 
 def explore(ctx):
     mark_class_section(ctx)
+    contextual_orphan_section(ctx)
     color_graph_section(ctx)
     import ufo2ft
     from fontTools.ttLib import TTFont
